@@ -89,6 +89,10 @@ def core(n):
         return mk("decls")
     if k == "VarDecl":
         return mk("var", n["name"])
+    if k == "DecompositionDecl":
+        # structured binding  auto& [a, b, ...] = init;  n = the names, a = [init]
+        return dict(k="sbind", t=t, n=[b["name"] for b in inner if b.get("kind") == "BindingDecl"],
+                    a=[core(b) for b in inner if b.get("kind") != "BindingDecl"])
     if k == "IfStmt":
         return mk("if")
     if k == "CXXForRangeStmt":
@@ -231,6 +235,14 @@ class Tr:
     def X_ext(self, c, st, env):
         return None
 
+    def default_init(self, kd, v):
+        """the term a default-initialised local of kind kd starts with (None: not supported)"""
+        return None
+
+    def sbind(self, v, st, env):
+        """structured binding declaration: bind lines; enters the names into env"""
+        raise Unsupported("structured binding %s" % show(v)[:200])
+
     def akind(self, t, param=False):
         """abstract kind of a C++ type"""
         t = t.replace("const ", "").strip()
@@ -269,6 +281,11 @@ class Tr:
         if t == "void":
             return "unit"
         raise Unsupported("type %r" % t)
+
+    # element kinds of the input ranges a range-for may run over, and the in-out ranges whose final
+    # contents are the observable result of a void method (kind of the parameter -> kind of the result)
+    RANGE_ELEMS = {"kvrange": ["key", "val"], "krange": ["key"], "fillrange": ["key", "optval"]}
+    FILL_OUT = {"fillrange": "outvec"}
 
     COQTY = {"nat": "nat", "bool": "bool", "key": "K", "val": "V", "optval": "option V", "allow": "allow", "peek": "bool",
              "liter": "iter", "mit": "option K", "eref": "nat", "unit": "unit", "kvrange": "list (K * V)", "krange": "list K",
@@ -401,7 +418,7 @@ class Tr:
                 b = b + ["do %s <- vget \"%s\" %s %s;" % (x, self.sc.get("elem_label", "m_elements[]"), self.fld("vec", st[0]), t)]
                 if fk == "optliter":
                     y = self.fresh("p")
-                    return b + ["do %s <- get_pos %s;" % (y, x)], y, "liter"
+                    return b + ["do %s <- %s %s;" % (y, self.sc.get("getpos", "get_pos"), x)], y, "liter"
                 if fk == "mit":
                     return b, "(%s %s)" % (coq, x), "mit"
                 if fk == "optval":
@@ -495,8 +512,9 @@ class Tr:
             rt = self.methods[m][0][1]
             pk = [kd for _, kd in self.params(m)]
             rk = self.akind(rt)
-            if "fillrange" in pk and rk == "unit":
-                rk = "outvec"          # the filled range is the observable result
+            for fk, ok in self.FILL_OUT.items():
+                if fk in pk and rk == "unit":
+                    rk = ok            # the filled range is the observable result
             self.sigs[m] = (pk, rk)
         return self.sigs[m]
 
@@ -548,18 +566,26 @@ class Tr:
                     env[name] = old
             return self.S(rest, st, env, K)
         if k == "block":
-            declared = [v["n"] for d in c["a"] if d["k"] == "decls" for v in d["a"] if v["k"] == "var"]
+            declared = [n for d in c["a"] if d["k"] == "decls" for v in d["a"] if v["k"] in ("var", "sbind")
+                        for n in (v["n"] if v["k"] == "sbind" else [v["n"]])]
             saved = {n: env.get(n) for n in declared}
             return self.S(c["a"] + [dict(k="endscope", saved=saved, a=[], n=None, t="")] + rest, st, env, K)
         if k == "decls":
             lines = []
             for v in c["a"]:
+                if v["k"] == "sbind":
+                    lines += self.sbind(v, st, env)
+                    continue
                 kd = self.akind(v["t"])
                 if kd == "guard":
                     continue
                 if not v["a"] or (v["a"][0]["k"] == "construct" and not v["a"][0]["a"]):
                     if kd == "outvec":
                         env[v["n"]] = ("[]", kd)
+                        continue
+                    d = self.default_init(kd, v)
+                    if d is not None:
+                        env[v["n"]] = (d, kd)
                         continue
                     raise Unsupported("default initialisation of %s %s" % (kd, v["n"]))
                 b, t, k2 = self.E(v["a"][0], st, env)
@@ -637,16 +663,16 @@ class Tr:
                 raise Unsupported("return inside a range-for loop")
             br, tr, kr = self.E(rng, st, env)
             names = sorted(n for n in self.assigned(body) if n in env)
-            fill = kr == "fillrange"
+            fill = kr in self.FILL_OUT
             if fill:
-                env["__fill"] = ("[]", "outvec")
+                env["__fill"] = ("[]", self.FILL_OUT[kr])
                 names = names + ["__fill"]
             benv = dict(env)
             bst = [self.fresh("s")]
             for n in names:
                 benv[n] = (self.fresh("v_" + n.strip("_") + "_"), env[n][1])
             acc_pat = self.tuple_of(bst, benv, names)
-            ekinds = {"kvrange": ["key", "val"], "krange": ["key"], "fillrange": ["key", "optval"]}.get(kr)
+            ekinds = self.RANGE_ELEMS.get(kr)
             if ekinds is None or len(ekinds) != len(c["n"]):
                 raise Unsupported("range-for over %s binding %s" % (kr, c["n"]))
             xs = []
@@ -659,7 +685,7 @@ class Tr:
             def done(st_, env_):
                 if fill:
                     env_ = dict(env_)
-                    env_["__fill"] = ("(%s ++ [(%s, %s)])" % (env_["__fill"][0], env_[c["n"][0]][0], env_[c["n"][1]][0]), "outvec")
+                    env_["__fill"] = ("(%s ++ [(%s, %s)])" % (env_["__fill"][0], env_[c["n"][0]][0], env_[c["n"][1]][0]), env_["__fill"][1])
                 return "Ok %s" % self.tuple_of(st_, env_, names)
             bt = self.S([body], bst, benv, (done, self.no_return, None))
             j, ns = self.fresh("j"), self.fresh("s")
@@ -813,7 +839,7 @@ class Tr:
         def done(st_, env_):
             if rk == "unit":
                 return "Ok %s" % st_[0]
-            if "fillrange" in pk and "__fill" in env_:
+            if any(fk in pk for fk in self.FILL_OUT) and "__fill" in env_:
                 return "Ok (%s, %s)" % (st_[0], env_["__fill"][0])
             raise Unsupported("control reaches the end of a non-void function")
 
